@@ -40,6 +40,9 @@ type Subscriptions struct {
 
 	whenQueueEnds []*whenQueueEndsBinding
 	whenQueue     []*whenQueueBinding
+	// queueTickDone is the latest queue tick passed to ProcessWhenQueue, ie the
+	// tick of the last mutation which has been fully processed.
+	queueTickDone uint64
 }
 
 func NewSubscriptionManager(
@@ -505,6 +508,11 @@ func (sm *Subscriptions) ProcessWhenQueue(queueTick uint64) []chan struct{} {
 	sm.Mx.Lock()
 	defer sm.Mx.Unlock()
 
+	// memorize for late subscribers
+	if queueTick > sm.queueTickDone {
+		sm.queueTickDone = queueTick
+	}
+
 	// collect
 	var toClose []chan struct{}
 	var toCloseIdx []int
@@ -877,6 +885,11 @@ func (sm *Subscriptions) WhenQueue(tick Result) <-chan struct{} {
 	// locks
 	sm.Mx.Lock()
 	defer sm.Mx.Unlock()
+
+	// already processed
+	if uint64(tick) <= sm.queueTickDone {
+		return sm.Closed
+	}
 
 	// TODO reuse existing chans
 
